@@ -147,7 +147,8 @@ Example fuse_steps_example :
   snd (fuse_steps e_dict [FInline 11]) = false /\     (* a has two dependents: not a legal step *)
   (* the hypotheses of fuse_steps_preserve *)
   nodupp (dkeys chain_dict) = true /\ length (dask_sched chain_dict) = length chain_dict /\
-  avoids results [FInline 21; FInline 22; FAlias results 99] = true.
+  avoids results [FInline 21; FInline 22; FAlias results 99] = true /\
+  inline_only [FInline 21; FInline 22] = true /\ snd (fuse_steps chain_dict [FInline 21; FInline 22]) = true.
 Proof. crunch. Qed.
 
 (* queries; get_upstream_tasks lists a task once per edge *)
